@@ -1100,7 +1100,10 @@ fn full_pos(b: &Board) -> FullPos {
 fn repetition(e: &mut Exec, rng: &mut Rng, len: usize, undo_pct: u64) {
     let mut reference: HashMap<FullPos, u32> = HashMap::new();
     let mut trail: Vec<FullPos> = vec![];
-    let reg = |e: &mut Exec, reference: &mut HashMap<FullPos, u32>, trail: &mut Vec<FullPos>| {
+    // the counts reported at each registration still on the trail: the top is what the board must
+    // report as the current occurrence count (max_seen_position_count), also after take-backs
+    let mut reported: Vec<u32> = vec![];
+    let reg = |e: &mut Exec, reference: &mut HashMap<FullPos, u32>, trail: &mut Vec<FullPos>, reported: &mut Vec<u32>| {
         let fp = full_pos(&e.ctx.board);
         let want = {
             let c = reference.entry(fp.clone()).or_insert(0);
@@ -1108,6 +1111,7 @@ fn repetition(e: &mut Exec, rng: &mut Rng, len: usize, undo_pct: u64) {
             *c
         };
         trail.push(fp.clone());
+        reported.push(want);
         let r = e.exec("count");
         if r != format!("count {}", want) {
             let msg = format!("! C17 registering [{} {} {} {}] returned [{}] but it has now been registered {} time(s)", fp.0, fp.1, fp.2, fp.3, r, want);
@@ -1124,7 +1128,7 @@ fn repetition(e: &mut Exec, rng: &mut Rng, len: usize, undo_pct: u64) {
             e.tally("second-occurrence");
         }
     };
-    reg(e, &mut reference, &mut trail);
+    reg(e, &mut reference, &mut trail, &mut reported);
     let mut last_own: [Option<(usize, usize)>; 2] = [None, None];
     let mut plies = 0;
     while plies < len {
@@ -1142,6 +1146,17 @@ fn repetition(e: &mut Exec, rng: &mut Rng, len: usize, undo_pct: u64) {
                 e.line(&msg);
             }
             e.unplay();
+            // unregistering is the exact inverse: the board reports again the count it reported when
+            // the position now current was registered
+            reported.pop();
+            let sn = e.exec("snap");
+            if let (Some(top), Some(seen)) = (reported.last(), sn.split_whitespace().last()) {
+                if sn != "PANIC" && seen != top.to_string() {
+                    let msg = format!("! C17 after unregistering and taking back, the board reports occurrence count {} where it reported {} when this position was registered [{}]", seen, top, sn);
+                    e.line(&msg);
+                }
+            }
+            e.tally("take-backs");
             continue;
         }
         let ms = e.legal();
@@ -1161,7 +1176,7 @@ fn repetition(e: &mut Exec, rng: &mut Rng, len: usize, undo_pct: u64) {
         };
         last_own[side] = Some((idx(m.from_square()), idx(m.to_square())));
         e.play(&m);
-        reg(e, &mut reference, &mut trail);
+        reg(e, &mut reference, &mut trail, &mut reported);
         plies += 1;
     }
 }
@@ -1698,6 +1713,14 @@ fn games(e: &mut Exec, rng: &mut Rng, kv: &Args, positions: &[(String, Pos)]) {
         e.exec(&format!("pos {}", p.line()));
         e.exec("game 1");
         let mut prev_labels: Vec<String> = vec![];
+        // tempo=1: steer the first five plies into a triangulation (the side to move spends three king
+        // moves on a round trip, the other side two on an out-and-back move): the SAME placement comes
+        // back with the OTHER side to move; the labels of the first position are then typed again
+        let tempo = kv.num("tempo", 0) == 1;
+        let mut tri_stage = if tempo { 0usize } else { 99 };
+        let mut tri_k: [usize; 3] = [64; 3];
+        let mut tri_other: (usize, usize) = (64, 64);
+        let mut start_labels: Vec<String> = vec![];
         for _ply in 0..plies {
             node_no += 1;
             let before = e.exec("gsnap");
@@ -1721,6 +1744,19 @@ fn games(e: &mut Exec, rng: &mut Rng, kv: &Args, positions: &[(String, Pos)]) {
                 if !label_set.contains(l) && rng.chance(1, 4) {
                     rejects.push(format!("galg {}", l)); // legal in the previous position / for the other side
                 }
+            }
+            if tri_stage == 0 {
+                start_labels = label_set.clone();
+            }
+            if tri_stage == 5 {
+                // the triangulation is complete: every label of the first position that is not a label now
+                for l in start_labels.iter() {
+                    if !label_set.contains(l) {
+                        rejects.push(format!("galg {}", l));
+                    }
+                }
+                e.tally("tempo-loss-revisits");
+                tri_stage = 99;
             }
             let pairs: Vec<(usize, usize)> = if all_pairs_every > 0 && node_no % all_pairs_every == 0 {
                 (0..4096).map(|k| (k / 64, k % 64)).collect()
@@ -1753,7 +1789,41 @@ fn games(e: &mut Exec, rng: &mut Rng, kv: &Args, positions: &[(String, Pos)]) {
             let k = rng.below(labelled.len());
             // favour special moves
             let specials: Vec<usize> = (0..labelled.len()).filter(|&i| !labelled[i].0.starts_with('S') || labelled[i].0.contains('x')).collect();
-            let k = if !specials.is_empty() && rng.chance(40, 100) { specials[rng.below(specials.len())] } else { k };
+            let mut k = if !specials.is_empty() && rng.chance(40, 100) { specials[rng.below(specials.len())] } else { k };
+            if tri_stage < 5 {
+                // quiet standard king moves of the side to move: text "S<from><to>"
+                let gb = e.extra.game.as_ref().unwrap().board().clone();
+                let is_king = |sq: usize| gb.get(bb(sq)).map(|(pc, _)| pc == Piece::King).unwrap_or(false);
+                let quiet = |i: usize| labelled[i].0.starts_with('S') && !labelled[i].0.contains('x') && labelled[i].0.len() == 5;
+                let ft = |i: usize| (parse_sq(&labelled[i].0[1..3]), parse_sq(&labelled[i].0[3..5]));
+                let adj = |a: usize, b: usize| ((a / 8) as i32 - (b / 8) as i32).abs() <= 1 && ((a % 8) as i32 - (b % 8) as i32).abs() <= 1 && a != b;
+                let pick: Option<usize> = match tri_stage {
+                    0 => {
+                        // k1 -> k2 such that some k3 is adjacent to both
+                        let c: Vec<usize> = (0..labelled.len()).filter(|&i| quiet(i) && is_king(ft(i).0)).collect();
+                        let c: Vec<usize> = c.into_iter().filter(|&i| { let (k1, k2) = ft(i); (0..64).any(|k3| adj(k3, k1) && adj(k3, k2) && gb.get(bb(k3)).is_none()) }).collect();
+                        if c.is_empty() { None } else { let i = c[rng.below(c.len())]; tri_k[0] = ft(i).0; tri_k[1] = ft(i).1; Some(i) }
+                    }
+                    1 => {
+                        // the other side: any quiet non-pawn move (out)
+                        let c: Vec<usize> = (0..labelled.len()).filter(|&i| quiet(i) && gb.get(bb(ft(i).0)).map(|(pc, _)| pc != Piece::Pawn).unwrap_or(false)).collect();
+                        if c.is_empty() { None } else { let i = c[rng.below(c.len())]; tri_other = ft(i); Some(i) }
+                    }
+                    2 => {
+                        let c: Vec<usize> = (0..labelled.len()).filter(|&i| quiet(i) && ft(i).0 == tri_k[1] && adj(ft(i).1, tri_k[0])).collect();
+                        if c.is_empty() { None } else { let i = c[rng.below(c.len())]; tri_k[2] = ft(i).1; Some(i) }
+                    }
+                    3 => (0..labelled.len()).find(|&i| quiet(i) && ft(i) == (tri_other.1, tri_other.0)),
+                    _ => (0..labelled.len()).find(|&i| quiet(i) && ft(i) == (tri_k[2], tri_k[0])),
+                };
+                match pick {
+                    Some(i) => {
+                        k = i;
+                        tri_stage += 1;
+                    }
+                    None => tri_stage = 99,
+                }
+            }
             let (mtext, label) = labelled[k].clone();
             let by_label = rng.chance(1, 2);
             let g_board_before = e.extra.game.as_ref().unwrap().board().clone();
